@@ -157,6 +157,88 @@ theorem term_eq_weight (D : Nat → Nat → ℝ) (factor : ℝ) (n hh hv P : Nat
     rw [exp_cells]
     simp only [cell_eq_gaussTerm]
 
+/-! ### `logsumexp`: the max-shift is immaterial over the reals -/
+
+theorem sum_pos_iff_of_nonneg (l : List ℝ) (h : ∀ x ∈ l, 0 ≤ x) : 0 < l.sum ↔ ∃ x ∈ l, 0 < x := by
+  induction l with
+  | nil => simp
+  | cons a l ih =>
+    have ha := h a (by simp)
+    have hl : ∀ x ∈ l, 0 ≤ x := fun x hx => h x (by simp [hx])
+    have hs : 0 ≤ l.sum := List.sum_nonneg hl
+    simp only [List.sum_cons, List.mem_cons, exists_eq_or_imp]
+    constructor
+    · intro hpos
+      by_cases h0 : 0 < a
+      · exact Or.inl h0
+      · have : a = 0 := le_antisymm (not_lt.mp h0) ha
+        right; apply (ih hl).mp; linarith
+    · rintro (h0 | hex)
+      · linarith
+      · have := (ih hl).mpr hex; linarith
+
+/-- `scipy.special.logsumexp` subtracts the row maximum `M` first; over the reals that is the
+    same as the unshifted form whenever the sum is positive -/
+theorem logSumExp_shift (xs : List (Option ℝ)) (M : ℝ) (hpos : 0 < (xs.map expOrZero).sum) :
+    logSumExp (xs.map (fun o => o.map (fun x => x - M))) + M = logSumExp xs := by
+  unfold logSumExp
+  have h : ((xs.map (fun o => o.map (fun x => x - M))).map expOrZero).sum
+      = Real.exp (-M) * (xs.map expOrZero).sum := by
+    clear hpos
+    induction xs with
+    | nil => simp
+    | cons o xs ih =>
+      simp only [List.map_cons, List.sum_cons, ih, mul_add]
+      congr 1
+      cases o with
+      | none => simp
+      | some x => simp [sub_eq_add_neg, Real.exp_add, mul_comm]
+  rw [h]
+  simp only [expLog_log]
+  rw [Real.log_mul (Real.exp_pos _).ne' hpos.ne', Real.log_exp]
+  ring
+
+theorem expOrZero_nonneg (o : Option ℝ) : 0 ≤ expOrZero o := by
+  cases o with
+  | none => simp
+  | some x => simpa using (Real.exp_pos x).le
+
+theorem rowMax_all_none (xs : List (Option ℝ)) (h : ∀ o ∈ xs, o = none) : rowMax xs = none := by
+  induction xs with
+  | nil => rfl
+  | cons o xs ih =>
+    have ho : o = none := h o (by simp)
+    subst ho
+    simp only [rowMax]
+    exact ih (fun o ho => h o (by simp [ho]))
+
+/-- `logsumexp` as implemented (shift by the row maximum, by `0` if the row is all `-inf`) equals
+    the plain `log Σ exp`, for every row -/
+theorem logSumExpShifted_eq (xs : List (Option ℝ)) : logSumExpShifted xs = logSumExp xs := by
+  by_cases h : ∀ o ∈ xs, o = none
+  · unfold logSumExpShifted logSumExp
+    rw [rowMax_all_none xs h]
+    simp only []
+    have h1 : xs.map (fun o => expOrZero (o.map (fun x => x - (none : Option ℝ).getD 0))) = xs.map expOrZero := by
+      apply List.map_congr_left
+      intro o ho
+      rw [h o ho]; rfl
+    rw [h1]
+    simp
+  · have hpos : 0 < (xs.map expOrZero).sum := by
+      rw [sum_pos_iff_of_nonneg _ (by
+        intro x hx; obtain ⟨o, _, rfl⟩ := List.mem_map.mp hx; exact expOrZero_nonneg o)]
+      push Not at h
+      obtain ⟨o, ho, hne⟩ := h
+      refine ⟨expOrZero o, List.mem_map_of_mem ho, ?_⟩
+      cases o with
+      | none => exact absurd rfl hne
+      | some x => simpa using Real.exp_pos x
+    have := logSumExp_shift xs ((rowMax xs).getD 0) hpos
+    rw [← this]
+    unfold logSumExpShifted logSumExp
+    simp only [List.map_map, Function.comp_def]
+
 /-! ### one plate, one group -/
 
 /-- the padding lemma: on a plate padded to any width (and any number of all-padding rows) the
@@ -166,7 +248,9 @@ theorem scorePlateDense_padded (D : Nat → Nat → ℝ) (factor : ℝ) (n hh hv
     scorePlateDense D factor triples (padArray 0 hh P (meansArray n p))
         (padArray none hv P (someArray (varsArray n p)))
       = scoreDirect D factor p triples := by
-  unfold scorePlateDense logSumExp scoreDirect
+  unfold scorePlateDense
+  rw [logSumExpShifted_eq]
+  unfold logSumExp scoreDirect
   rw [List.map_map]
   congr 2
   apply List.map_congr_left
@@ -340,24 +424,6 @@ theorem tripleWeight_pos_iff (D : Nat → Nat → ℝ) (f : ℝ) (p : Plate ℝ)
     exact mul_pos (Real.exp_pos _) (prodL_pos _ (by
       intro x hx; obtain ⟨e, _, rfl⟩ := List.mem_map.mp hx; exact gaussTerm_pos e t))
 
-theorem sum_pos_iff_of_nonneg (l : List ℝ) (h : ∀ x ∈ l, 0 ≤ x) : 0 < l.sum ↔ ∃ x ∈ l, 0 < x := by
-  induction l with
-  | nil => simp
-  | cons a l ih =>
-    have ha := h a (by simp)
-    have hl : ∀ x ∈ l, 0 ≤ x := fun x hx => h x (by simp [hx])
-    have hs : 0 ≤ l.sum := List.sum_nonneg hl
-    simp only [List.sum_cons, List.mem_cons, exists_eq_or_imp]
-    constructor
-    · intro hpos
-      by_cases h0 : 0 < a
-      · exact Or.inl h0
-      · have : a = 0 := le_antisymm (not_lt.mp h0) ha
-        right; apply (ih hl).mp; linarith
-    · rintro (h0 | hex)
-      · linarith
-      · have := (ih hl).mpr hex; linarith
-
 /-- the sum inside the logarithm is positive exactly when some triple has non-zero distance -/
 theorem weightSum_pos_iff (D : Nat → Nat → ℝ) (f : ℝ) (p : Plate ℝ) (ts : List Triple) :
     0 < (ts.map (tripleWeight D f p)).sum ↔ ∃ t ∈ ts, distSum D t ≠ 0 := by
@@ -369,27 +435,6 @@ theorem weightSum_pos_iff (D : Nat → Nat → ℝ) (f : ℝ) (p : Plate ℝ) (t
     exact ⟨t, ht, (tripleWeight_pos_iff D f p t).mp hpos⟩
   · rintro ⟨t, ht, hne⟩
     exact ⟨_, List.mem_map_of_mem ht, (tripleWeight_pos_iff D f p t).mpr hne⟩
-
-/-- `scipy.special.logsumexp` subtracts the row maximum `M` first; over the reals that is the
-    same as the unshifted form whenever the sum is positive -/
-theorem logSumExp_shift (xs : List (Option ℝ)) (M : ℝ) (hpos : 0 < (xs.map expOrZero).sum) :
-    logSumExp (xs.map (fun o => o.map (fun x => x - M))) + M = logSumExp xs := by
-  unfold logSumExp
-  have h : ((xs.map (fun o => o.map (fun x => x - M))).map expOrZero).sum
-      = Real.exp (-M) * (xs.map expOrZero).sum := by
-    clear hpos
-    induction xs with
-    | nil => simp
-    | cons o xs ih =>
-      simp only [List.map_cons, List.sum_cons, ih, mul_add]
-      congr 1
-      cases o with
-      | none => simp
-      | some x => simp [sub_eq_add_neg, Real.exp_add, mul_comm]
-  rw [h]
-  simp only [expLog_log]
-  rw [Real.log_mul (Real.exp_pos _).ne' hpos.ne', Real.log_exp]
-  ring
 
 /-! ### all triples; the three kernel entry points -/
 
@@ -458,5 +503,85 @@ theorem scoreHomoscedastic_eq (n : Nat) (hn : 0 < n) (D : Nat → Nat → ℝ) (
   rw [← h]
   unfold scoreHomoscedastic scoreHeteroscedastic
   rw [homoscedasticRagged_eq n hn]
+
+/-! ### every rectangular array is `meansArray` of its columns -/
+
+/-- `M` is a rectangular `n × L` array -/
+def Rect {β : Type} (n L : Nat) (M : List (List β)) : Prop := M.length = n ∧ ∀ r ∈ M, r.length = L
+
+theorem maxL_const_of (l : List Nat) (L : Nat) (hne : l ≠ []) (h : ∀ x ∈ l, x = L) : maxL l = L := by
+  induction l with
+  | nil => exact absurd rfl hne
+  | cons a l ih =>
+    have ha : a = L := h a (by simp)
+    cases l with
+    | nil => simp [maxL, ha]
+    | cons b l =>
+      have := ih (by simp) (fun x hx => h x (by simp [hx]))
+      simp only [maxL, List.foldr_cons] at this ⊢
+      rw [this, ha]; simp
+
+theorem shape1_rect {β : Type} (n L : Nat) (hn : 0 < n) (M : List (List β)) (h : Rect n L M) : shape1 M = L := by
+  unfold shape1
+  apply maxL_const_of
+  · intro he
+    have : M = [] := by simpa using he
+    rw [this] at h
+    have := h.1
+    simp at this
+    omega
+  · intro x hx
+    obtain ⟨r, hr, rfl⟩ := List.mem_map.mp hx
+    exact h.2 r hr
+
+theorem list_ext_rows (n L : Nat) (M : List (List ℝ)) (h : Rect n L M) :
+    (List.range n).map (fun t => (List.range L).map (fun e => (M.getD t []).getD e 0)) = M := by
+  apply List.ext_getElem
+  · simp [h.1]
+  · intro t h1 h2
+    have ht : t < M.length := h2
+    have hr : M[t].length = L := h.2 _ (List.getElem_mem ht)
+    simp only [List.getElem_map, List.getElem_range]
+    apply List.ext_getElem
+    · simp [hr]
+    · intro e h3 h4
+      simp [List.getD_eq_getElem?_getD, ht, h4]
+
+theorem meansArray_plateOfArrays (n L : Nat) (hn : 0 < n) (M V : List (List ℝ)) (hM : Rect n L M) :
+    meansArray n (plateOfArrays M V) = M := by
+  unfold meansArray plateOfArrays
+  rw [shape1_rect n L hn M hM]
+  simp only [List.map_map, Function.comp_def]
+  exact list_ext_rows n L M hM
+
+theorem varsArray_plateOfArrays (n L : Nat) (hn : 0 < n) (M V : List (List ℝ)) (hM : Rect n L M) (hV : Rect n L V) :
+    varsArray n (plateOfArrays M V) = V := by
+  unfold varsArray plateOfArrays
+  rw [shape1_rect n L hn M hM]
+  simp only [List.map_map, Function.comp_def]
+  exact list_ext_rows n L V hV
+
+theorem rect_group (n : Nat) (hn : 0 < n) (preds vars : List (List (List ℝ)))
+    (hshape : List.Forall₂ (fun M V => ∃ L, Rect n L M ∧ Rect n L V) preds vars) :
+    preds = (List.zipWith plateOfArrays preds vars).map (meansArray n)
+      ∧ vars = (List.zipWith plateOfArrays preds vars).map (varsArray n) := by
+  induction hshape with
+  | nil => exact ⟨rfl, rfl⟩
+  | cons h _ ih =>
+    obtain ⟨L, hM, hV⟩ := h
+    simp only [List.zipWith_cons_cons, List.map_cons]
+    rw [← ih.1, ← ih.2, meansArray_plateOfArrays n L hn _ _ hM, varsArray_plateOfArrays n L hn _ _ hM hV]
+    exact ⟨rfl, rfl⟩
+
+/-- the heteroscedastic entry point on ARBITRARY rectangular per-plate arrays -/
+theorem scoreHeteroscedastic_arrays (n : Nat) (hn : 0 < n) (D : Nat → Nat → ℝ) (f : ℝ) (triples : List Triple)
+    (ht : ∀ t ∈ triples, TripleValid n t) (preds vars : List (List (List ℝ)))
+    (hshape : List.Forall₂ (fun M V => ∃ L, Rect n L M ∧ Rect n L V) preds vars) :
+    scoreHeteroscedastic D f triples preds vars
+      = List.zipWith (fun M V => scoreDirect D f (plateOfArrays M V) triples) preds vars := by
+  obtain ⟨hp, hv⟩ := rect_group n hn preds vars hshape
+  have key := scoreHeteroscedastic_eq n D f triples ht (List.zipWith plateOfArrays preds vars)
+  rw [← hp, ← hv] at key
+  rw [key, List.map_zipWith]
 
 end Batchie.Dbal
